@@ -30,6 +30,7 @@ var debugMode = false
 // Check logs fatal if err != nil.
 func Check(err error) {
 	if err != nil {
+		verifhook.AssertFailed()
 		log.Fatalf("%+v", Wrap(err, ""))
 	}
 }
